@@ -960,6 +960,123 @@ impl Session {
     }
 }
 
+/// Verification hooks (feature `verif`): transport-model accessors (C09/C10/C15/C20).
+#[cfg(feature = "verif")]
+impl Session {
+    pub fn verif_pre_send_t(
+        &mut self,
+        exch_index: Option<usize>,
+        tx_header: &mut PacketHdr,
+        session_active_interval_ms: Option<u32>,
+        session_idle_interval_ms: Option<u32>,
+    ) -> Result<(Address, bool), Error> {
+        self.pre_send(
+            exch_index,
+            tx_header,
+            session_active_interval_ms,
+            session_idle_interval_ms,
+        )
+    }
+
+    pub fn verif_add_exch_t(&mut self, exch_id: u16, initiator: bool) -> Option<usize> {
+        self.add_exch(
+            exch_id,
+            if initiator {
+                Role::Initiator(Default::default())
+            } else {
+                Role::Responder(Default::default())
+            },
+        )
+    }
+
+    pub fn verif_remove_exch(&mut self, index: usize) -> bool {
+        self.remove_exch(index)
+    }
+
+    /// `Transport::accept_if`'s state change: AcceptPending -> Owned
+    pub fn verif_accept_exch(&mut self, index: usize) -> bool {
+        use super::exchange::ResponderState;
+        match self.exchanges.get_mut(index).and_then(Option::as_mut) {
+            Some(exch) if matches!(exch.role, Role::Responder(ResponderState::AcceptPending)) => {
+                exch.role = Role::Responder(ResponderState::Owned);
+                true
+            }
+            _ => false,
+        }
+    }
+
+    pub fn verif_get_exch_for_rx(&self, rx_proto: &ProtoHdr) -> Option<usize> {
+        self.get_exch_for_rx(rx_proto)
+    }
+
+    pub fn verif_set_local_sess_id(&mut self, sess_id: u16) {
+        self.local_sess_id = sess_id;
+    }
+
+    pub fn verif_set_expired_t(&mut self, expired: bool) {
+        self.expired = expired;
+    }
+
+    pub fn verif_msg_ctr(&self) -> u32 {
+        self.msg_ctr
+    }
+
+    pub fn verif_set_msg_ctr(&mut self, ctr: u32) {
+        self.msg_ctr = ctr;
+    }
+
+    pub fn verif_flags(&self) -> (bool, bool) {
+        (self.expired, self.reserved)
+    }
+
+    /// `(slot index, exchange id, role, retrans (msg ctr, attempt counter), ack (msg ctr, acknowledged))` of every slot
+    #[allow(clippy::type_complexity)]
+    pub fn verif_exchanges(
+        &self,
+    ) -> std::vec::Vec<Option<(u16, &'static str, Option<(u32, u16)>, Option<(u32, bool)>)>> {
+        use super::exchange::{InitiatorState, ResponderState};
+        self.exchanges
+            .iter()
+            .map(|e| {
+                e.as_ref().map(|e| {
+                    let role = match e.role {
+                        Role::Initiator(InitiatorState::Owned) => "IO",
+                        Role::Initiator(InitiatorState::Dropped) => "ID",
+                        Role::Responder(ResponderState::AcceptPending) => "RP",
+                        Role::Responder(ResponderState::Owned) => "RO",
+                        Role::Responder(ResponderState::Dropped) => "RD",
+                    };
+                    (
+                        e.exch_id,
+                        role,
+                        e.mrp
+                            .retrans
+                            .as_ref()
+                            .map(|r| (r.get_msg_ctr(), r.verif_counter())),
+                        e.mrp.ack.as_ref().map(|a| (a.msg_ctr, a.acknowledged)),
+                    )
+                })
+            })
+            .collect()
+    }
+}
+
+/// Verification hooks (feature `verif`): allocator positions of the session table.
+#[cfg(feature = "verif")]
+impl Sessions {
+    pub fn verif_set_next_sess_id(&mut self, id: u16) {
+        self.next_sess_id = id;
+    }
+
+    pub fn verif_set_next_exch_id(&mut self, id: u16) {
+        self.next_exch_id = id;
+    }
+
+    pub fn verif_next_ids(&self) -> (u16, u16) {
+        (self.next_sess_id, self.next_exch_id)
+    }
+}
+
 impl fmt::Display for Session {
     fn fmt(&self, f: &mut fmt::Formatter<'_>) -> fmt::Result {
         write!(
